@@ -886,7 +886,7 @@ def _trace(st, func, args, kwargs, out):
 def _convolution(st, func, args, kwargs, out):
     inp, w, bias, stride, padding, dilation, transposed, output_padding, groups = args[:9]
     if transposed:
-        raise Unsupported("transposed convolution")
+        return _conv_transposed(st, args, out)
     x = PN(st, inp)
     W = PN(st, w)
     nd = x.ndim - 2
@@ -914,6 +914,46 @@ def _convolution(st, func, args, kwargs, out):
                     continue
                 xs = x[(slice(None), g * cig + ci) + sl]
                 res[:, co] = add(res[:, co], mul(xs, _obj(wv)))
+    if bias is not None:
+        b = PN(st, bias)
+        res = add(res, b.reshape((1, Cout) + (1,) * nd))
+    return res
+
+
+def _conv_transposed(st, args, out):
+    """out[n, co, i*stride - pad + k*dil] += x[n, ci, i] * w[ci, co_in_group, k]"""
+    inp, w, bias, stride, padding, dilation, transposed, output_padding, groups = args[:9]
+    x = PN(st, inp)
+    W = PN(st, w)
+    nd = x.ndim - 2
+    stride = list(stride) * nd if len(stride) == 1 else list(stride)
+    padding = list(padding) * nd if len(padding) == 1 else list(padding)
+    dilation = list(dilation) * nd if len(dilation) == 1 else list(dilation)
+    N, Cin = x.shape[:2]
+    cog = W.shape[1]
+    Cout = cog * groups
+    cig = Cin // groups
+    isp = x.shape[2:]
+    osp = tuple(out.shape[2:])
+    full = tuple((n - 1) * s_ + (k - 1) * d + 1 for n, s_, k, d in zip(isp, stride, W.shape[2:], dilation))
+    res = np.full((N, Cout) + full, E.ZERO, dtype=object)
+    add, mul = _b(E.add), _b(E.mul)
+    for off in itertools.product(*[range(k) for k in W.shape[2:]]):
+        sl = tuple(slice(o * d, o * d + (n - 1) * s_ + 1, s_) for o, d, s_, n in zip(off, dilation, stride, isp))
+        for ci in range(Cin):
+            g = ci // cig
+            for cj in range(cog):
+                wv = W[(ci, cj) + off]
+                if wv is E.ZERO:
+                    continue
+                co = g * cog + cj
+                res[(slice(None), co) + sl] = add(res[(slice(None), co) + sl], mul(x[:, ci], _obj(wv)))
+    # crop padding, extend by output_padding (zeros)
+    crop = tuple(slice(p, p + n) for p, n in zip(padding, osp))
+    need = tuple(p + n for p, n in zip(padding, osp))
+    if any(a > b for a, b in zip(need, full)):
+        res = np.pad(res, [(0, 0), (0, 0)] + [(0, max(0, a - b)) for a, b in zip(need, full)], constant_values=E.ZERO)
+    res = res[(slice(None), slice(None)) + crop]
     if bias is not None:
         b = PN(st, bias)
         res = add(res, b.reshape((1, Cout) + (1,) * nd))
